@@ -53,7 +53,7 @@ FIELDS = {
     ('SliceOp', 'start'): OP, ('SliceOp', 'stop'): OP, ('SliceOp', 'step'): OP,
     ('CallOp', 'name'): STR, ('CallOp', 'args'): LIST(OP, owned=True),
     ('DictOp', 'd'): LIST(Ty('tuple2op'), owned=True),
-    ('LambdaOp', 'args'): LIST(OP, owned=True), ('LambdaOp', 'expr'): OP,
+    ('LambdaOp', 'args'): LIST(OBJ('NameOp'), owned=True), ('LambdaOp', 'expr'): OP,   # parameters are names (arglist_def)
     # PLY objects
     ('LexToken', 'value'): ANY, ('LexToken', 'type'): STR, ('LexToken', 'lexer'): OBJ('Lexer'),
     ('LexToken', 'lineno'): INT, ('LexToken', 'lexpos'): INT,
